@@ -209,6 +209,10 @@ Init == /\ e0 \in StepExprs
 Next == /\ cfg' \in Succ(cfg)
         /\ UNCHANGED <<e0, row>>
 
+(* every pattern class the property names is inhabited by the exhaustive skeleton family *)
+InhabitedBy(progs) == \A c \in RequiredClasses : \E pr \in progs : c \in Labels(pr)
+ASSUME DoSkel => InhabitedBy(SkelProgs)
+
 Deterministic == Cardinality(Enabled1(cfg)) <= 1 /\ Cardinality(Succ(cfg)) <= 1
 Progress      == ~Final(cfg) => Succ(cfg) # {}
 Agreement     == Final(cfg) =>
